@@ -3,9 +3,14 @@ EXTENDS EndpointQuic
 MCPeers == {"127.0.0.1", "::ffff:127.0.0.70", "127.0.0.70"}
 MCCanon(a) == IF a = "::ffff:127.0.0.70" THEN "127.0.0.70" ELSE a
 MCRandoms == { [hex |-> "00aa", r0 |-> 0], [hex |-> "7fbb", r0 |-> 127], [hex |-> "80cc", r0 |-> 128], [hex |-> "ffdd", r0 |-> 255] }
+MCZero == [hex |-> "0000", r0 |-> 0]
 MCDenyIps == {"127.0.0.70"}
+\* a ClientHello in one Initial packet (quiche, curl), in two (a post-quantum key share), in three (and a long ALPN list / padding)
+MCHelloSizes == 1..3
 Bound == gTcp <= 2 /\ requests <= 2
-\* anti-vacuity: both verdicts are reachable for both reasons
+\* anti-vacuity: both verdicts are reachable for both reasons, and the zero random is not a client's
 ASSUME \E r \in MCRandoms : r.r0 < 128
 ASSUME \E r \in MCRandoms : r.r0 >= 128
+ASSUME MCZero \notin MCRandoms
+ASSUME \E n \in MCHelloSizes : n > 1
 =============================================================================
